@@ -1,6 +1,7 @@
 import Ts.Model.Crc
 import Ts.Spec.CrcSpec
 import Ts.Lemmas.C04
+import Ts.Lemmas.C04b
 import Ts.Model.App
 /-!
 # C04 (checksum half) — `sum32` is exactly the CRC-32 of ISO/IEC 13818-1 Annex A
@@ -18,6 +19,26 @@ i.e. transmission order.
 
 Not claimed (and false for any 32-bit CRC): detection of two flipped bits arbitrarily far apart
 (`x` has order `2^32 - 1` modulo the generator).
+
+# C04 (gate half) — PAT / PMT handlers act only on sections whose CRC verifies
+
+With the CRC check compiled in (`bypassCrc = false`, i.e. not `cfg(fuzzing)`):
+* `gate_blocks`, `gate_filters` (+ `gate_filters_pat`, `gate_filters_pmt`): the run of the table
+  processor over a list of deliveries, under the side condition that every delivery has the syntax
+  bit set and ≥ 2 bytes;
+* `table_handler_gated`, `table_handler_filtered`: ONE `App.consume` of a PAT / PMT handler on a
+  188-byte packet; the side condition is discharged from the reassembly invariant
+  `Lemmas.C04b.GateInv` (`gateInv_init`, `consume_table_gateInv`);
+* `step_pat_gated`, `step_pmt_gated`: one dispatcher step;
+* `requests_only_from_verified`, `requests_history`: every `construct` request in the trace of a
+  successful `runApp` is a `ByPid` request or a request computed from a delivered section of at
+  least 12 bytes with the syntax bit set and `crc = 0`.
+
+Scope of the error-detection lemmas inside the gate half: they compare a span with a corruption
+of THE SAME LENGTH.  A flipped bit in `section_length`, `pointer_field` or the syntax bit changes
+WHICH bytes are delivered; the algebraic lemmas say nothing about that case.  It is covered only by
+the gate theorems (whatever is delivered must verify before it is acted on), by the harness
+enumeration, and by the concrete kernel-checked example `twoPacket_every_bit_blocked` below.
 -/
 namespace Ts.Props.C04
 open Ts Ts.CrcSpec
@@ -165,7 +186,8 @@ theorem crc0_double_ne_zero (e : Bytes) (p q : Nat) (hpq : p < q) (hd : q - p < 
   · exact order_gt_2_16 (q - p) (by omega) hd
 
 /-- **double-bit errors**: `e` has exactly two set bits, at positions `p < q` less than `2^16`
-bit positions apart (covers every pair inside a maximum-size 4096-byte section) -/
+bit positions apart (this covers every pair inside a maximum-size 4096-byte section:
+`detect_double_bit_section` discharges `hd` from `S.length ≤ 4096`) -/
 theorem detect_double_bit (m e : Bytes) (p q : Nat) (hl : e.length = m.length) (hm : crc m = 0)
     (hpq : p < q) (hd : q - p < 65536)
     (hp : bitAt e p = 1) (hq : bitAt e q = 1) (honly : ∀ i, bitAt e i = 1 → i = p ∨ i = q) :
@@ -248,7 +270,12 @@ example : bitAt (singleBit 16 37) 37 = 1 ∧ bitAt (singleBit 16 37) 36 = 0 := b
 `App.runDeliveries` is the only path from reassembled sections to `PatProcessor::new_table` /
 `PmtProcessor::new_table` (handler requests, queued insertions / removals, `filters_registered`).
 With the CRC check compiled in (`bypassCrc = false`, i.e. not `cfg(fuzzing)`) a section reaches
-the table processor only if `sum32` of the whole section is zero. -/
+the table processor only if `sum32` of the whole section is zero.
+
+The theorems of this first section are about `runDeliveries` alone and ASSUME, for every delivery,
+that the syntax bit is set and that it has at least 2 bytes (otherwise `crcPass` panics on its
+`assert!`).  The `Handler` section below discharges that assumption for the deliveries of
+`Psi.consume Psi.table` and lifts the gate to `App.consume`, `specStep` and `runApp`. -/
 section Gate
 open Ts.App Ts.Psi
 
@@ -328,11 +355,454 @@ theorem gate_blocks (sect : Ctx → List Nat → Bytes → R (Ctx × List Nat ×
       Bool.false_eq_true, if_false]
     exact ih (fun d' hm => h d' (List.mem_cons_of_mem _ hm))
 
-/-- every single-bit corruption of a verified section is blocked by the gate (combines
-`detect_single_bit_flip` with `gate_blocks`) -/
+/-- single-bit flip detection on a span of EQUAL length (this is literally
+`detect_single_bit_flip`; the statement does not mention the gate): if `m` sums to zero then `m`
+with bit `p` inverted does not.  Together with `gate_blocks` / `table_handler_gated` this blocks a
+corrupted section only when the reassembler delivers a span of the same length as the original,
+i.e. when the flipped bit is NOT in `section_length`, `pointer_field` or the syntax bit.  A flip in
+one of those changes WHICH bytes are delivered (or whether anything is delivered); the algebraic
+detection lemmas of this file do not apply to that case.  It is covered only by the gate theorems
+(whatever span is delivered must itself verify), by the harness enumeration, and on one concrete
+two-packet section by `twoPacket_every_bit_blocked`. -/
 theorem corrupted_section_blocked (m : Bytes) (p : Nat) (hm : crc m = 0) (hp : p < 8 * m.length) :
     crc (flipBit m p) ≠ 0 := detect_single_bit_flip m p hp hm
 
 end Gate
+
+section Handler
+open Ts.App Ts.Psi Ts.Demux Ts.Lemmas.C04b Ts.Lemmas.Proj
+
+/-! ### the processors preserve the configuration: `gate_filters` instantiated -/
+
+theorem patSection_cfg (c : Ctx) (reg : List Nat) (d : Bytes) (c' : Ctx) (reg' : List Nat)
+    (chg : List (Change Handler)) (h : App.patSection c reg d = .ok (c', reg', chg)) : c'.cfg = c.cfg :=
+  (patSection_produces c reg d c' reg' chg h).1.1
+
+theorem pmtSection_cfg (c : Ctx) (pid : Nat) (reg : List Nat) (d : Bytes) (c' : Ctx) (reg' : List Nat)
+    (chg : List (Change Handler)) (h : pmtSection c pid reg d = .ok (c', reg', chg)) : c'.cfg = c.cfg :=
+  (pmtSection_produces c pid reg d c' reg' chg h).1.1
+
+/-- `gate_filters` for `PatProcessor` (hypothesis `hcfg` discharged) -/
+theorem gate_filters_pat (c : Ctx) (reg : List Nat) (hb : c.cfg.bypassCrc = false) (ds : List Delivery)
+    (hds : ∀ d ∈ ds, byteD d.bytes 1 &&& 0b1000_0000 ≠ 0 ∧ 2 ≤ d.bytes.length) :
+    runDeliveries App.patSection c reg ds =
+      runDeliveries App.patSection c reg (ds.filter (fun d => decide (12 ≤ d.bytes.length ∧ crc d.bytes = 0))) :=
+  gate_filters App.patSection c reg hb (fun c' r d c'' r'' ch h => patSection_cfg c' r d c'' r'' ch h) ds hds
+
+/-- `gate_filters` for `PmtProcessor` on any PID (hypothesis `hcfg` discharged) -/
+theorem gate_filters_pmt (pid : Nat) (c : Ctx) (reg : List Nat) (hb : c.cfg.bypassCrc = false)
+    (ds : List Delivery)
+    (hds : ∀ d ∈ ds, byteD d.bytes 1 &&& 0b1000_0000 ≠ 0 ∧ 2 ≤ d.bytes.length) :
+    runDeliveries (fun c r d => pmtSection c pid r d) c reg ds =
+      runDeliveries (fun c r d => pmtSection c pid r d) c reg
+        (ds.filter (fun d => decide (12 ≤ d.bytes.length ∧ crc d.bytes = 0))) :=
+  gate_filters _ c reg hb (fun c' r d c'' r'' ch h => pmtSection_cfg c' pid r d c'' r'' ch h) ds hds
+
+/-- `gate_blocks` with the weakest "does not verify" hypothesis: a delivery is blocked as soon as
+it is shorter than 12 bytes OR its CRC is not zero -/
+theorem gate_blocks' (sect : Ctx → List Nat → Bytes → R (Ctx × List Nat × List (Demux.Change Handler)))
+    (c : Ctx) (reg : List Nat) (hb : c.cfg.bypassCrc = false) :
+    ∀ (ds : List Delivery),
+      (∀ d ∈ ds, byteD d.bytes 1 &&& 0b1000_0000 ≠ 0 ∧ 2 ≤ d.bytes.length
+        ∧ ¬ (12 ≤ d.bytes.length ∧ crc d.bytes = 0)) →
+      runDeliveries sect c reg ds = .ok (c, reg, []) := by
+  intro ds
+  induction ds with
+  | nil => intro _; rfl
+  | cons d ds ih =>
+    intro h
+    have hd := h d (List.mem_cons_self ..)
+    simp only [runDeliveries, hb, crcPass_iff d.bytes hd.1 hd.2.1, hd.2.2, decide_false, R.ok_bind,
+      Bool.false_eq_true, if_false]
+    exact ih (fun d' hm => h d' (List.mem_cons_of_mem _ hm))
+
+/-! ### handler level: one `consume` of a PAT / PMT handler, side condition discharged -/
+
+/-- **Handler-level gate.**  Hypotheses: the CRC check is compiled in (`hb`); the handler's
+section-reassembly state satisfies `GateInv` (`hs`; holds for the initial state `{}` and is
+preserved by every `Psi.consume Psi.table` on a 188-byte packet: `gateInv_init`,
+`consume_table_gateInv`); the packet has 188 bytes (`hl`); the reassembler returns `(s', ds)` on
+it (`hP`); and NO completed section of `ds` verifies (`hbad`: each is shorter than 12 bytes or its
+Annex A CRC over the whole section is non-zero).
+Conclusion: the PAT handler, and every PMT handler, in reassembly state `s` returns WITHOUT
+panicking, with the context `c` literally unchanged (no `construct` request, no tag handed out, no
+trace event of any kind — these handlers never emit a `pkt` event), the registered set `reg`
+unchanged and an EMPTY change list (nothing inserted, replaced or removed); only the reassembly
+state advances to `s'`, which again satisfies `GateInv`. -/
+theorem table_handler_gated' (s : Psi.St) (reg : List Nat) (c : Ctx) (pk : Pk) (s' : Psi.St)
+    (ds : List Psi.Delivery) (hb : c.cfg.bypassCrc = false) (hs : GateInv s)
+    (hl : pk.bytes.length = 188) (hP : Psi.consume Psi.table s pk.bytes = .ok (s', ds))
+    (hbad : ∀ d ∈ ds, ¬ (12 ≤ d.bytes.length ∧ crc d.bytes = 0)) :
+    App.consume (.pat s reg) c pk = .ok (.pat s' reg, c, []) ∧
+    (∀ pid prog, App.consume (.pmt pid prog s reg) c pk = .ok (.pmt pid prog s' reg, c, [])) ∧
+    GateInv s' := by
+  obtain ⟨hs', hds⟩ := consume_table_gateInv s hs pk.bytes hl s' ds hP
+  have hside : ∀ d ∈ ds, byteD d.bytes 1 &&& 0b1000_0000 ≠ 0 ∧ 2 ≤ d.bytes.length
+      ∧ ¬ (12 ≤ d.bytes.length ∧ crc d.bytes = 0) :=
+    fun d hd => ⟨(hds d hd).1, by have := (hds d hd).2; omega, hbad d hd⟩
+  refine ⟨?_, ?_, hs'⟩
+  · simp only [App.consume, hP, R.ok_bind, gate_blocks' App.patSection c reg hb ds hside]
+    rfl
+  · intro pid prog
+    simp only [App.consume, hP, R.ok_bind,
+      gate_blocks' (fun c r d => pmtSection c pid r d) c reg hb ds hside]
+    rfl
+
+/-- the same with the hypothesis in the form "the CRC of every completed section is non-zero" -/
+theorem table_handler_gated (s : Psi.St) (reg : List Nat) (c : Ctx) (pk : Pk) (s' : Psi.St)
+    (ds : List Psi.Delivery) (hb : c.cfg.bypassCrc = false) (hs : GateInv s)
+    (hl : pk.bytes.length = 188) (hP : Psi.consume Psi.table s pk.bytes = .ok (s', ds))
+    (hbad : ∀ d ∈ ds, crc d.bytes ≠ 0) :
+    App.consume (.pat s reg) c pk = .ok (.pat s' reg, c, []) ∧
+    ∀ pid prog, App.consume (.pmt pid prog s reg) c pk = .ok (.pmt pid prog s' reg, c, []) :=
+  have h := table_handler_gated' s reg c pk s' ds hb hs hl hP (fun d hd hh => hbad d hd hh.2)
+  ⟨h.1, h.2.1⟩
+
+/-- **Handler-level filter**: under the same hypotheses minus `hbad`, what a PAT / PMT handler does
+on a packet is what its table processor does on the completed sections that verify (≥ 12 bytes and
+Annex A CRC zero), in order; the others are invisible -/
+theorem table_handler_filtered (s : Psi.St) (reg : List Nat) (c : Ctx) (pk : Pk) (s' : Psi.St)
+    (ds : List Psi.Delivery) (hb : c.cfg.bypassCrc = false) (hs : GateInv s)
+    (hl : pk.bytes.length = 188) (hP : Psi.consume Psi.table s pk.bytes = .ok (s', ds)) :
+    App.consume (.pat s reg) c pk =
+      (runDeliveries App.patSection c reg (ds.filter (fun d => decide (12 ≤ d.bytes.length ∧ crc d.bytes = 0)))
+        >>= fun r => R.ok (.pat s' r.2.1, r.1, r.2.2)) ∧
+    ∀ pid prog, App.consume (.pmt pid prog s reg) c pk =
+      (runDeliveries (fun c r d => pmtSection c pid r d) c reg
+          (ds.filter (fun d => decide (12 ≤ d.bytes.length ∧ crc d.bytes = 0)))
+        >>= fun r => R.ok (.pmt pid prog s' r.2.1, r.1, r.2.2)) := by
+  obtain ⟨_, hds⟩ := consume_table_gateInv s hs pk.bytes hl s' ds hP
+  have hside : ∀ d ∈ ds, byteD d.bytes 1 &&& 0b1000_0000 ≠ 0 ∧ 2 ≤ d.bytes.length :=
+    fun d hd => ⟨(hds d hd).1, by have := (hds d hd).2; omega⟩
+  refine ⟨?_, ?_⟩
+  · simp only [App.consume, hP, R.ok_bind, gate_filters_pat c reg hb ds hside]
+    rfl
+  · intro pid prog
+    simp only [App.consume, hP, R.ok_bind, gate_filters_pmt pid c reg hb ds hside]
+    rfl
+
+/-! ### dispatcher level: one step -/
+
+/-- one dispatcher step on an unflagged packet whose PID is served by the PAT handler: if no
+section completed by this packet verifies, the step returns, the context is unchanged and the
+table changes only in that the PAT handler's reassembly state advances -/
+theorem step_pat_gated (t : Tab Handler) (c : Ctx) (pk : Pk) (s : Psi.St) (reg : List Nat) (s' : Psi.St)
+    (ds : List Psi.Delivery) (hg : t.get pk.pid = some (.pat s reg)) (hf : pk.flagged = false)
+    (hb : c.cfg.bypassCrc = false) (hs : GateInv s) (hl : pk.bytes.length = 188)
+    (hP : Psi.consume Psi.table s pk.bytes = .ok (s', ds))
+    (hbad : ∀ d ∈ ds, ¬ (12 ≤ d.bytes.length ∧ crc d.bytes = 0)) :
+    specStep App.sem (t, c) pk = .ok (t.insert pk.pid (.pat s' reg), c) := by
+  have hc : t.contains pk.pid = true := (Tab.contains_eq_true_iff t pk.pid).2 ⟨_, hg⟩
+  rw [specStep_consume_of_contains App.sem t c pk _ hc hf hg]
+  show (App.consume (.pat s reg) c pk >>= _) = _
+  rw [(table_handler_gated' s reg c pk s' ds hb hs hl hP hbad).1]
+  rfl
+
+/-- the same for a PMT handler -/
+theorem step_pmt_gated (t : Tab Handler) (c : Ctx) (pk : Pk) (pid prog : Nat) (s : Psi.St)
+    (reg : List Nat) (s' : Psi.St) (ds : List Psi.Delivery)
+    (hg : t.get pk.pid = some (.pmt pid prog s reg)) (hf : pk.flagged = false)
+    (hb : c.cfg.bypassCrc = false) (hs : GateInv s) (hl : pk.bytes.length = 188)
+    (hP : Psi.consume Psi.table s pk.bytes = .ok (s', ds))
+    (hbad : ∀ d ∈ ds, ¬ (12 ≤ d.bytes.length ∧ crc d.bytes = 0)) :
+    specStep App.sem (t, c) pk = .ok (t.insert pk.pid (.pmt pid prog s' reg), c) := by
+  have hc : t.contains pk.pid = true := (Tab.contains_eq_true_iff t pk.pid).2 ⟨_, hg⟩
+  rw [specStep_consume_of_contains App.sem t c pk _ hc hf hg]
+  show (App.consume (.pmt pid prog s reg) c pk >>= _) = _
+  rw [(table_handler_gated' s reg c pk s' ds hb hs hl hP hbad).2.1 pid prog]
+  rfl
+
+/-! ### stream level -/
+
+/-- `Verified` (what `Psi.crcPass false` lets through, stated with the model's `sum32`) in terms of
+the Annex A bit-serial CRC -/
+theorem verified_iff (S : Bytes) :
+    Verified S ↔ 12 ≤ S.length ∧ byteD S 1 &&& 0b1000_0000 ≠ 0 ∧ crc S = 0 := by
+  unfold Verified
+  rw [sum32_zero_iff]
+
+/-- **Stream-level gate ("ever").**  For ANY configuration with the CRC check compiled in and ANY
+list of pushed buffers (arbitrary bytes, arbitrary lengths) on which the application run returns
+(it always does: C01), every handler request `construct req tag` recorded in the final trace is
+either a `ByPid` request (the dispatcher's lookup-or-construct, or `Demultiplex::new`), or one of
+the requests the PAT processor (`patRequests S`) or a PMT processor (`pmtRequests pid S`) computes
+from a section `S` that has at least 12 bytes, `section_syntax_indicator = 1`, and whose Annex A
+CRC over the whole section is zero (equivalently: the model of `mpegts_crc::sum32` returns 0).
+The existential does not say WHERE `S` was delivered; `requests_history` does, for one push. -/
+theorem requests_only_from_verified (cfg : App.Cfg) (hb : cfg.bypassCrc = false) (pushes : List Bytes)
+    (t : Tab Handler) (c : Ctx) (h : runApp cfg pushes = .ok (t, c)) :
+    ∀ req tag, Ev.construct req tag ∈ c.trace → (∃ p, req = Req.byPid p) ∨
+      ∃ S, 12 ≤ S.length ∧ byteD S 1 &&& 0b1000_0000 ≠ 0 ∧ crc S = 0 ∧ Ts.Crc.sum32 S = .ok 0
+        ∧ (req ∈ patRequests S ∨ ∃ pid, req ∈ pmtRequests pid S) := by
+  unfold runApp at h
+  obtain ⟨hcfg, _, out, hout, hall⟩ := pushAll_gated pushes (App.init cfg) 0 (t, c) hb h
+  intro req tag hm
+  rw [show (t, c).2 = c from rfl] at hout
+  rw [hout, (init_trace cfg).1] at hm
+  rcases List.mem_append.1 hm with hm | hm
+  · rcases hall _ hm req tag rfl with hp | ⟨S, hv, hr⟩
+    · exact Or.inl hp
+    · exact Or.inr ⟨S, hv.1, hv.2.1, (sum32_zero_iff S).1 hv.2.2, hv.2.2, hr⟩
+  · simp only [List.mem_singleton] at hm
+    injection hm with hm _
+    exact Or.inl ⟨0, hm⟩
+
+/-- **History form, one push.**  Same hypotheses with a single pushed buffer `buf`: `pks` are the
+packets `push` iterates over; every event of the final trace is the initial `ByPid(0)` request or
+was appended by the dispatcher step on some packet `pk` of `pks` from the state `(t1, c1)` reached
+after the packets before it, and satisfies `StepEv t1 c1 pk`: it is the `ByPid(pk.pid)` request,
+or an event of the handler `h0` serving `pk.pid` in that step allowed by `GatedEv h0 pk` — for a
+PAT / PMT handler with reassembly state `s`: a request computed from a section `d.bytes` with
+`d ∈ ds`, `Psi.consume Psi.table s pk.bytes = .ok (s', ds)` and `Verified d.bytes`; for PES filters
+and recorders: not a request. -/
+theorem requests_history (cfg : App.Cfg) (hb : cfg.bypassCrc = false) (buf : Bytes)
+    (t : Tab Handler) (c : Ctx) (h : runApp cfg [buf] = .ok (t, c)) :
+    ∃ pks, frame buf 0 = .ok pks ∧ ∀ e ∈ c.trace, e = Ev.construct (.byPid 0) 0 ∨
+      ∃ pre pk post t1 c1, pks = pre ++ pk :: post ∧
+        pushSpec App.sem (App.init cfg) pre = .ok (t1, c1) ∧ StepEv t1 c1 pk e := by
+  unfold runApp pushAll at h
+  obtain ⟨tc1, h1, h⟩ := Ts.Lemmas.C19.R.bind_eq_ok h
+  have : tc1 = (t, c) := Ts.Lemmas.C19.R.ok_inj h
+  subst this
+  unfold push at h1
+  obtain ⟨pks, hf, h1⟩ := Ts.Lemmas.C19.R.bind_eq_ok h1
+  rw [pushModel_eq_pushSpec] at h1
+  obtain ⟨_, _, out, hout, hall⟩ := pushSpec_gated pks (App.init cfg) (t, c) hb h1
+  refine ⟨pks, hf, ?_⟩
+  intro e hm
+  rw [show (t, c).2 = c from rfl] at hout
+  rw [hout, (init_trace cfg).1] at hm
+  rcases List.mem_append.1 hm with hm | hm
+  · exact Or.inr (hall e hm)
+  · simp only [List.mem_singleton] at hm
+    exact Or.inl hm
+
+end Handler
+
+section Examples
+open Ts.App Ts.Demux Ts.Lemmas.C04b
+open scoped Ts.Lemmas.C08
+
+/-! ### multi-packet clause: a PAT split over two transport packets, through the whole application
+(`Demultiplex::new` + one `push`), by kernel evaluation -/
+
+/-- append the CRC_32 computed by the MODEL of `mpegts_crc::sum32` -/
+def sealSection (b : Bytes) : Bytes :=
+  match Ts.Crc.sum32 b with
+  | .ok v => b ++ be32 v
+  | .panic _ => b
+
+/-- first packet on PID 0: unit start, adaptation field of 173 bytes (all stuffing), then
+`pointer_field = 0` and the first 9 bytes of `sec` -/
+def splitPkt1 (sec : Bytes) : Bytes :=
+  [0x47, 0x40, 0x00, 0x30, 173, 0x00] ++ List.replicate 172 0xff ++ [0x00] ++ sec.take 9
+
+/-- second packet on PID 0: continuation, payload only: the rest of `sec`, then `0xff` stuffing -/
+def splitPkt2 (sec : Bytes) : Bytes :=
+  [0x47, 0x00, 0x00, 0x11] ++ sec.drop 9 ++ List.replicate (184 - (sec.length - 9)) 0xff
+
+def splitStream (sec : Bytes) : Bytes := splitPkt1 sec ++ splitPkt2 sec
+
+/-- the `q`-th payload bit of `splitStream sec` for a 16-byte `sec`: bits 0..79 are the
+`pointer_field` and the 9 section bytes in packet 1, bits 80..135 the 7 section bytes in packet 2 -/
+def splitBitPos (q : Nat) : Nat := if q < 80 then 8 * 178 + q else 8 * 192 + (q - 80)
+
+/-- the PAT / PMT processor requests (everything except `ByPid`) of a run, oldest first;
+`none` if the run panicked -/
+def tableRequests : R (Tab Handler × Ctx) → Option (List Req)
+  | .ok (_, c) => some (c.trace.reverse.filterMap (fun e =>
+      match e with
+      | .construct (.byPid _) _ => none
+      | .construct r _ => some r
+      | _ => none))
+  | .panic _ => none
+
+example : sealSection patBody = patSection := by decide +kernel
+example : (splitPkt1 patSection).length = 188 ∧ (splitPkt2 patSection).length = 188 := by decide +kernel
+
+/-- the intact two-packet PAT (CRC computed by the model's `sum32`): the run returns and the PAT
+processor requests the PMT handler of program 1 -/
+theorem twoPacket_intact :
+    tableRequests (runApp {} [splitStream (sealSection patBody)]) = some [Req.pmt 0x1e0 1] := by
+  decide +kernel
+
+/-- one bit inverted in the SECOND packet (bit 37 of the packet = bit 5 of section byte 9): the run
+returns and no PAT / PMT processor request is made -/
+theorem twoPacket_second_packet_bit :
+    tableRequests (runApp {} [splitPkt1 patSection ++ flipBit (splitPkt2 patSection) 37]) = some [] := by
+  decide +kernel
+
+
+
+/-- the payload-bit numbering used below: 80 bits in packet 1 (byte 178 = `pointer_field`, bytes
+179..187 = section bytes 0..8), 56 bits in packet 2 (bytes 192..198 of the stream = section
+bytes 9..15) -/
+example : (List.range 136).map splitBitPos
+    = (List.range 80).map (· + 8 * 178) ++ (List.range 56).map (· + 8 * 192) := by decide +kernel
+
+theorem twoPacket_every_bit_blocked_a : ∀ q : Fin 68,
+    tableRequests (runApp {} [flipBit (splitStream patSection) (splitBitPos q.val)]) = some [] := by
+  decide +kernel
+
+theorem twoPacket_every_bit_blocked_b : ∀ q : Fin 68,
+    tableRequests (runApp {} [flipBit (splitStream patSection) (splitBitPos (68 + q.val))]) = some [] := by
+  decide +kernel
+
+/-- **multi-packet clause on a concrete section, every payload bit** (kernel evaluation of the whole
+application model, not an instance of the algebraic lemmas): the 16-byte PAT `patSection` is sent
+as 9 + 7 bytes in two packets on PID 0.  Inverting ANY ONE of the 136 payload bits — the
+`pointer_field`, `table_id`, the syntax bit, `section_length`, version, the body, the CRC, in the
+first or in the second packet — yields a run that returns and makes NO PAT / PMT processor request;
+the intact stream makes exactly the request for program 1 (`twoPacket_intact`).  Bits of the
+4-byte transport headers, of the adaptation field and of the trailing stuffing are not covered. -/
+theorem twoPacket_every_bit_blocked (q : Nat) (hq : q < 136) :
+    tableRequests (runApp {} [flipBit (splitStream patSection) (splitBitPos q)]) = some [] := by
+  by_cases h : q < 68
+  · exact twoPacket_every_bit_blocked_a ⟨q, h⟩
+  · have := twoPacket_every_bit_blocked_b ⟨q - 68, by omega⟩
+    rwa [show 68 + (q - 68) = q by omega] at this
+
+/-! ### double-bit and burst detection, instantiated -/
+
+theorem bitAt_lt (e : Bytes) (i : Nat) (h : bitAt e i = 1) : i < 8 * e.length := by
+  apply Classical.byContradiction
+  intro hn
+  have h0 : byteD e (i / 8) = 0 := by
+    unfold byteD
+    rw [List.getD_eq_getElem?_getD, List.getElem?_eq_none (by omega)]
+    rfl
+  unfold bitAt at h
+  rw [h0] at h
+  simp at h
+
+/-- **double-bit errors inside one section**: the distance bound `q - p < 65536` of
+`detect_double_bit` follows from the section length limit (`S.length ≤ 4096`, i.e. at most
+32768 bit positions; the reassembler of this crate even caps sections at 1024 bytes) -/
+theorem detect_double_bit_section (S e : Bytes) (p q : Nat) (hl : e.length = S.length)
+    (hS : S.length ≤ 4096) (hm : crc S = 0) (hpq : p < q)
+    (hp : bitAt e p = 1) (hq : bitAt e q = 1) (honly : ∀ i, bitAt e i = 1 → i = p ∨ i = q) :
+    crc (xorBytes S e) ≠ 0 := by
+  have := bitAt_lt e q hq
+  exact detect_double_bit S e p q hl hm hpq (by omega) hp hq honly
+
+/-- the same for two concrete bit inversions -/
+theorem detect_double_bit_flip_section (S : Bytes) (p q : Nat) (hpq : p < q) (hq : q < 8 * S.length)
+    (hS : S.length ≤ 4096) (hm : crc S = 0) : crc (flipBit (flipBit S p) q) ≠ 0 :=
+  detect_double_bit_flip S p q hpq hq (by omega) hm
+
+example : crc (flipBit (flipBit patSection 3) 120) ≠ 0 :=
+  detect_double_bit_flip_section patSection 3 120 (by decide) (by decide) (by decide) (by decide +kernel)
+
+/-- a burst that is NOT a single bit: pattern `ff 00 00 81` over bytes 3..6 (bits 24..55) -/
+def burstPattern : Bytes := [0, 0, 0, 0xff, 0, 0, 0x81, 0, 0, 0, 0, 0, 0, 0, 0, 0]
+
+/-- the window hypothesis `hwin` of `detect_burst_le_32` holds for `burstPattern` with `s = 24` -/
+theorem burstPattern_window : ∀ i, bitAt burstPattern i = 1 → 24 ≤ i ∧ i < 24 + 32 := by
+  intro i hi
+  have hlt : i < 128 := bitAt_lt burstPattern i hi
+  have key : ∀ j : Fin 128, bitAt burstPattern j.val = 1 → 24 ≤ j.val ∧ j.val < 24 + 32 := by
+    decide +kernel
+  exact key ⟨i, hlt⟩ hi
+
+/-- `detect_burst_le_32` instantiated on a 10-bit-heavy 32-bit burst -/
+example : crc (xorBytes patSection burstPattern) ≠ 0 :=
+  detect_burst_le_32 patSection burstPattern 24 (by decide) (by decide +kernel)
+    ⟨0xff, by decide, by decide⟩ burstPattern_window
+
+/-! ### non-vacuity of the handler-level gate, single- and multi-packet -/
+
+/-- `patSection` with the last CRC bit inverted -/
+def patBad : Bytes := flipBit patSection 127
+
+/-- one transport packet on PID `pid`, unit start, no adaptation field, `pointer_field = 0`,
+carrying the whole section `sec` followed by `0xff` stuffing -/
+def onePkt (pid : Nat) (sec : Bytes) : Bytes :=
+  [0x47, UInt8.ofNat (0x40 ||| (pid >>> 8)), UInt8.ofNat (pid &&& 0xff), 0x10, 0x00] ++ sec
+    ++ List.replicate (183 - sec.length) 0xff
+
+/-- **`table_handler_gated` instantiated, single packet**: the corrupt PAT is completed by the
+packet (it IS delivered to the CRC layer) and the PAT handler does nothing, in ANY context -/
+theorem gated_single_packet (c : Ctx) (hb : c.cfg.bypassCrc = false) (reg : List Nat) :
+    App.consume (.pat {} reg) c ⟨onePkt 0 patBad, 0, 0, false, false⟩
+      = .ok (.pat { lastVersion := some 0 } reg, c, []) :=
+  (table_handler_gated {} reg c ⟨onePkt 0 patBad, 0, 0, false, false⟩ { lastVersion := some 0 }
+    [⟨patBad, some 5⟩] hb gateInv_init (by decide +kernel) (by decide +kernel)
+    (by intro d hd; simp only [List.mem_singleton] at hd; subst hd; decide +kernel)).1
+
+/-- reassembly state after the first packet of the split PAT: 9 bytes buffered, 7 owed -/
+def splitState : Psi.St := { lastVersion := some 0, buf := patSection.take 9, remaining := some 7 }
+
+theorem splitState_reached :
+    Psi.consume Psi.table {} (splitPkt1 patSection) = .ok (splitState, []) := by decide +kernel
+
+theorem splitState_inv : GateInv splitState :=
+  (consume_table_gateInv {} gateInv_init _ (by decide +kernel) _ _ splitState_reached).1
+
+/-- **`table_handler_gated` instantiated, multi-packet section**: the second packet completes a
+section whose last bit was inverted in transit; the handler (PAT, and any PMT handler in the same
+reassembly state) does nothing, in ANY context -/
+theorem gated_second_packet (c : Ctx) (hb : c.cfg.bypassCrc = false) (reg : List Nat) :
+    App.consume (.pat splitState reg) c ⟨splitPkt2 patBad, 188, 0, false, false⟩
+      = .ok (.pat { lastVersion := some 0, buf := patBad } reg, c, []) ∧
+    ∀ pid prog, App.consume (.pmt pid prog splitState reg) c ⟨splitPkt2 patBad, 188, pid, false, false⟩
+      = .ok (.pmt pid prog { lastVersion := some 0, buf := patBad } reg, c, []) := by
+  have hP : Psi.consume Psi.table splitState (splitPkt2 patBad)
+      = .ok ({ lastVersion := some 0, buf := patBad }, [⟨patBad, none⟩]) := by decide +kernel
+  have hbad : ∀ d ∈ [(⟨patBad, none⟩ : Psi.Delivery)], crc d.bytes ≠ 0 := by
+    intro d hd; simp only [List.mem_singleton] at hd; subst hd; decide +kernel
+  have hlen : (splitPkt2 patBad).length = 188 := by decide +kernel
+  refine ⟨(table_handler_gated splitState reg c ⟨splitPkt2 patBad, 188, 0, false, false⟩ _ _ hb
+    splitState_inv hlen hP hbad).1, ?_⟩
+  intro pid prog
+  exact (table_handler_gated splitState reg c ⟨splitPkt2 patBad, 188, pid, false, false⟩ _ _ hb
+    splitState_inv hlen hP hbad).2 pid prog
+
+/-! ### the state hypothesis of `table_handler_gated` is needed -/
+
+/-- a reassembly state that satisfies the buffer invariant `PsiInv .syntax` but NOT `SynInv`: eight
+bytes buffered whose header has `section_syntax_indicator = 0`, one byte owed -/
+def noSynState : Psi.St := { buf := [0x00, 0x30, 0x06, 0, 0, 0, 0, 0], remaining := some 1 }
+
+/-- **`GateInv` cannot be weakened to `PsiInv .syntax`** in `table_handler_gated`: from `noSynState`
+a continuation packet completes a 9-byte section without the syntax bit, whose CRC is non-zero,
+and the PAT handler PANICS (on the `assert!` of the CRC layer) instead of returning.  (The state is
+unreachable: `SynInv` is an invariant, `consume_table_gateInv`.) -/
+theorem table_handler_gated_needs_synInv :
+    Ts.Lemmas.C03.PsiInv .syntax noSynState ∧ (splitPkt2 []).length = 188
+    ∧ Psi.consume Psi.table noSynState (splitPkt2 [])
+        = .ok ({ buf := [0x00, 0x30, 0x06, 0, 0, 0, 0, 0, 0xff] },
+               [⟨[0x00, 0x30, 0x06, 0, 0, 0, 0, 0, 0xff], none⟩])
+    ∧ crc [0x00, 0x30, 0x06, 0, 0, 0, 0, 0, 0xff] ≠ 0
+    ∧ (App.consume (.pat noSynState []) { cfg := {} } ⟨splitPkt2 [], 0, 0, false, false⟩).isOk
+        = false := by
+  refine ⟨?_, by decide +kernel, by decide +kernel, by decide +kernel, by decide +kernel⟩
+  intro n hn
+  have : n = 1 := by injection hn with hn; exact hn.symm
+  subst this
+  decide
+
+/-! ### non-vacuity of the stream-level gate: PAT then PMT through the whole application -/
+
+/-- a PMT for program 1 (PCR PID 0x100, one H.264 stream on PID 0x100), without CRC -/
+def pmtBody : Bytes :=
+  [0x02, 0xb0, 0x12, 0x00, 0x01, 0xc1, 0x00, 0x00, 0xe1, 0x00, 0xf0, 0x00, 0x1b, 0xe1, 0x00, 0xf0, 0x00]
+def pmtSectionBytes : Bytes := sealSection pmtBody
+
+example : Verified patSection ∧ patRequests patSection = [Req.pmt 0x1e0 1] := by
+  rw [verified_iff]; decide +kernel
+example : Verified pmtSectionBytes ∧ pmtRequests 0x1e0 pmtSectionBytes = [Req.stream 0x1e0 0x1b 0x100 0x100 [] []] := by
+  rw [verified_iff]; decide +kernel
+
+/-- intact PAT (split over two packets) then intact PMT: the run returns and the requests are
+exactly those of `requests_only_from_verified`; with one bit of the PMT inverted the PMT's stream
+request is never made -/
+theorem app_pat_pmt :
+    tableRequests (runApp {} [splitStream patSection ++ onePkt 0x1e0 pmtSectionBytes])
+      = some [Req.pmt 0x1e0 1, Req.stream 0x1e0 0x1b 0x100 0x100 [] []]
+    ∧ tableRequests (runApp {} [splitStream patSection ++ onePkt 0x1e0 (flipBit pmtSectionBytes 100)])
+      = some [Req.pmt 0x1e0 1] := by
+  decide +kernel
+
+end Examples
 
 end Ts.Props.C04
